@@ -263,7 +263,7 @@ fn history(cfg: &Cfg, rep: &mut Report, fl: Flavour, h: u64, steps: usize) {
 }
 
 pub fn run(cfg: &Cfg, rep: &mut Report) {
-    rep.rule = "Seeded histories per token flavour with EXACT authorization: each call is signed by the principal alone (2/5) or by a uniformly random subset of {parties of the call, a stranger, the mint owner}; live_until on {cur-1,cur,cur+1,..,max,max+1,0}; ledger moved to {L-1,L,L+1,L+ttl} of live allowances; min_temp_entry_ttl alternates 1/16. Distinct case = (flavour, entry point, who signed by role, allowance state {none,live<,live=,live>,@L,expired}, outcome); calls refused by a pure argument check still carry their signer set, so they are counted.".into();
+    rep.rule = "Seeded histories per token flavour (the eight fungible flavours, the RWA token's holder-initiated entry points behind permissive compliance / identity mocks, vault shares through the C05 engine) with EXACT authorization: each call is signed by the principal alone (2/5) or by a uniformly random subset of {parties of the call, a stranger, the mint owner}; live_until on {cur-1,cur,cur+1,..,max,max+1,0}; ledger moved to {L-1,L,L+1,L+ttl} of live allowances; min_temp_entry_ttl alternates 1/16. Distinct case = (flavour, entry point, who signed by role, allowance state {none,live<,live=,live>,@L,expired}, outcome); calls refused by a pure argument check still carry their signer set, so they are counted.".into();
     let nh = cfg.pick(6u64, 60);
     let steps = cfg.pick(220usize, 400);
     for (fi, fl) in ALL_FLAVOURS.iter().enumerate() {
@@ -272,6 +272,14 @@ pub fn run(cfg: &Cfg, rep: &mut Report) {
             if cfg.runs(h) {
                 history(cfg, rep, *fl, h, steps);
             }
+        }
+    }
+    // RWA token: its holder-initiated entry points (transfer, transfer_from, approve) under exact
+    // authorization; compliance and identity mocks let everything through, nothing is frozen
+    for k in 0..nh {
+        let h = 8_000 + k;
+        if cfg.runs(h) {
+            history(cfg, rep, Flavour::Rwa, h, steps);
         }
     }
     // vault operator path: the C05 engine under exact authorization
